@@ -118,6 +118,12 @@ func (m *Machine) call(fn *ssa.Function, args []Value, free []Value, depth int) 
 	if r, ok := m.intrinsic(fn, args); ok {
 		return r
 	}
+	if fn.Pkg != nil && m.isExternalPkg(fn.Pkg.Pkg.Path()) {
+		return m.externalCall(fn, args)
+	}
+	if fn.Pkg == nil && fn.Origin() != nil && fn.Origin().Pkg != nil && m.isExternalPkg(fn.Origin().Pkg.Pkg.Path()) {
+		return m.externalCall(fn, args)
+	}
 	if fn.Blocks == nil {
 		panic("no body for " + fn.String())
 	}
@@ -527,11 +533,13 @@ func (m *Machine) mergeVals(gs []*Cond, vals []Value) Value {
 			n.vs[k] = m.mergeVals(gs, col)
 		}
 		return n
+	case UVal:
+		panic("cannot merge distinct opaque values (external library state) across paths")
 	case BigV:
 		// merged big integers: a fresh integer symbol defined per arm
 		z := linSym(m.fresh("zb"))
 		for i, v := range vals {
-			m.defs = append(m.defs, cImp(gs[i], cCmp("=", z, m.bigLin(v.(BigV)))))
+			m.defs = append(m.defs, cImp(gs[i], cCmp("=", z, m.bigLin(m.bigOf(v)))))
 		}
 		return BigV{lin: z}
 	case Ptr:
@@ -667,6 +675,9 @@ func identical(a, b Value) bool {
 			}
 		}
 		return true
+	case UVal:
+		y, ok := b.(UVal)
+		return ok && x.term == y.term
 	case VField:
 		y, ok := b.(VField)
 		return ok && x.r == y.r
@@ -674,6 +685,9 @@ func identical(a, b Value) bool {
 		y, ok := b.(BigV)
 		if !ok {
 			return false
+		}
+		if x.cell != nil || y.cell != nil {
+			return x.cell == y.cell
 		}
 		if x.c != nil && y.c != nil {
 			return x.c.Cmp(y.c) == 0
